@@ -1,7 +1,7 @@
 # C20 - statistics output well-formed and consistent: per-call contracts of stats.c + counter sites in process.c.
 LEVEL = "other"
 F = "harness/c20_stats.c"
-UW = ("fwrite.0:106", "h_stats_take.0:14", "h_stats_on_gvt.0:14", "h_final_write.0:14", "h_final_write.1:50", "stats_file_final_write.0:14", "stats_file_final_write.1:4",
+UW = ("fwrite.0:106", "h_files_receive.0:6", "stats_files_receive.0:7", "stats_files_receive.1:7", "h_stats_take.0:14", "h_stats_on_gvt.0:14", "h_final_write.0:14", "h_final_write.1:50", "stats_file_final_write.0:14", "stats_file_final_write.1:4",
       "strnlen.0:40", "strlen.0:40", "memset.0:200", "memcpy.0:10")
 HARNESSES = [
     H(name="C20.stats_take", file=F, entry="h_stats_take", funcs=["stats_take", "stats_retrieve"], unwindset=UW, kind="proof", timeout=600,
@@ -11,6 +11,9 @@ HARNESSES = [
     H(name="C20.final_write", file=F, entry="h_final_write", funcs=["stats_file_final_write"], unwindset=UW, kind="bounded", bound="1 rank, <= 2 threads", timeout=900,
       desc="chunk sequence == documented layout: magic(2), metric count(8), Pascal strings, rank count(8), node header(72), size+node array, per thread size+array; nothing else"),
 ]
+HARNESSES.append(
+    H(name="C20.files_receive", file=F, entry="h_files_receive", funcs=["stats_files_receive"], unwindset=UW, kind="bounded", bound="2 ranks, 1..3 threads on each (independently)", timeout=900, canaries=2,
+      desc="the block appended for another rank = its header + exactly (1 + its t_cnt) size-prefixed arrays, independent of the master's thread count"))
 import importlib.util as _ilu, os as _os
 _sp = _ilu.spec_from_file_location("spec_C06_for_C20", _os.path.join(_os.path.dirname(__file__), "C06.py"))
 _m = _ilu.module_from_spec(_sp); _m.H = H; _sp.loader.exec_module(_m)
